@@ -110,4 +110,14 @@ func init() {
 			p.ruleParseDiscipline(c)
 		},
 	})
+	register(&PropertyDef{
+		ID: "C17", Level: "other",
+		Explanation: "E5 append typestate.",
+		Run: func(p *Program, c *Check) {
+			p.ruleAppendTypestate(c)
+			p.rulePositionIndex(c)
+			p.ruleThreeViews(c)
+			p.ruleFloatFormat(c)
+		},
+	})
 }
